@@ -8,6 +8,8 @@
 -/
 import OpmVerif.Proofs.SumFunsTable
 import OpmVerif.Proofs.SumFuns
+import OpmVerif.Proofs.SumFunsLevels
+import OpmVerif.Proofs.SumFunsCalendar
 import Mathlib.Algebra.Order.Field.Rat
 import Mathlib.Tactic.NormNum
 
@@ -369,12 +371,276 @@ theorem non_total_is_last_value (key : String) (hnt : stateIsTotal key = false) 
 
 /-! ## calendar
 
-Full statement wanted: `daysFromCivil (civilFromDays z) = z ∧ 1 ≤ month ≤ 12 ∧ 1 ≤ day ≤ 31` for
-every day number `z` (DAY / MONTH / YEAR are the civil date of START + elapsed).  Proved: the
-400-year periodicity, which reduces that statement to the 146 097 days of one era; the remaining
-finite check is too expensive for the kernel here (≈17 ms per day) and `omega` does not close the
-nested floor divisions, so the date function itself is tied to the real `gmtime` by the
-`sumfuns.time` correspondence op and by property mode only. -/
+`calendar_round_trip` and `calendar_valid_date` are the full statement (every day number, no
+finite check): DAY / MONTH / YEAR of the model are a valid date of the proleptic Gregorian
+calendar whose day count is START's day count + the elapsed days.  The real code's `gmtime` is
+tied to this date function by the `sumfuns.time` correspondence op and by property mode.
+`calendar_era_periodic_partial` is the earlier partial result, kept. -/
+
+/-- The date the model reports for day number `z` has day count `z`: `daysFromCivil ∘
+civilFromDays = id` on all of ℤ. -/
+theorem calendar_round_trip (z : Int) :
+    daysFromCivil (civilFromDays z).1 (civilFromDays z).2.1 (civilFromDays z).2.2 = z :=
+  Calendar.civil_roundtrip z
+
+/-- It is a valid date: month 1…12, day 1…length of the month (Gregorian leap rule). -/
+theorem calendar_valid_date (z : Int) :
+    Calendar.Valid (civilFromDays z).1 (civilFromDays z).2.1 (civilFromDays z).2.2 :=
+  Calendar.civil_valid z
+
+/-- DAY / MONTH / YEAR follow the schedule's dates: `n` days after START `(y0, m0, d0)` the
+reported date is the valid date whose day count is START's plus `n` — for every START and every
+number of elapsed days (any number of steps of any lengths: only their sum enters). -/
+theorem calendar_date_follows_schedule (y0 m0 d0 n : Int) :
+    let r := civilFromDays (daysFromCivil y0 m0 d0 + n)
+    Calendar.Valid r.1 r.2.1 r.2.2 ∧ daysFromCivil r.1 r.2.1 r.2.2 = daysFromCivil y0 m0 d0 + n :=
+  ⟨Calendar.civil_valid _, Calendar.civil_roundtrip _⟩
+
+/-- anchors: day 0 is 1970-01-01, an era of 400 years has 146 097 days -/
+theorem calendar_epoch : civilFromDays 0 = (1970, 1, 1) ∧ daysFromCivil 1970 1 1 = 0 ∧
+    daysFromCivil 2370 1 1 = 146097 := Calendar.epoch
+
+/-! ## below the well level, regions, network nodes -/
+
+/-- Every accumulating C/S/R key is `mul (expression of its …R twin) duration` (`COPT`/`COPR`,
+`CWITL`/`CWIRL`, `SOFT`/`SOFR`, `ROPT`/`ROPR`, …); the two solvent totals have no twin. -/
+theorem table_level_totals_are_rate_times_duration :
+    Gen.funsK.all (fun p =>
+      !(isCSRK p.1 && stateIsTotalK p.1) || totalOK lookupK p.1 p.2 || memK levelTotalExceptionsK p.1) = true :=
+  level_totals_are_rate_times_duration
+
+/-- For every C/S/R entry: shape `mul _ duration` ⇔ accumulates in `SummaryState` ⇔ typed `Total`
+by `SummaryConfig` (whole efficiency chain) — no exception. -/
+theorem table_level_classifications :
+    Gen.funsK.all (fun p =>
+      !isCSRK p.1 ||
+        ((match p.2 with | .mul _ .duration => true | _ => false) == stateIsTotalK p.1 &&
+          stateIsTotalK p.1 == configIsTotalK p.1)) = true :=
+  level_classifications
+
+/-- unit of every atom-free accumulating C/S/R key = time integral of the unit of its rate twin -/
+theorem table_level_totals_units_integrate :
+    Gen.funsK.all (fun p =>
+      !(isCSRK p.1 && stateIsTotalK p.1 && noAtom p.2) || unitIntegrates lookupK p.1 p.2 ||
+        memK levelTotalExceptionsK p.1) = true :=
+  level_totals_units_integrate
+
+/-- the positions `segpress i` refers to are the ones of `data::SegmentPressures::Value` -/
+theorem table_segpress_names :
+    Gen.segPressNames = ["Pressure", "PDrop", "PDropHydrostatic", "PDropAccel", "PDropFriction"] :=
+  segpress_names
+
+/-- `rate_unit` of every component of `data::Rates::opt` as the rate leaves report it (energy
+falls back to `liquid_surface_rate`: the code as it is). -/
+theorem table_rate_units_by_phase :
+    Rt.all.map rateLeafUnit =
+      ["liquid_surface_rate", "liquid_surface_rate", "gas_surface_rate", "mass_rate", "gas_surface_rate",
+       "liquid_surface_rate", "gas_surface_rate", "liquid_surface_rate", "rate", "rate", "rate",
+       "liquid_productivity_index", "liquid_productivity_index", "gas_productivity_index",
+       "liquid_surface_rate", "liquid_surface_rate", "gas_surface_rate",
+       "mass_rate", "liquid_surface_rate", "liquid_surface_rate", "liquid_surface_rate", "liquid_surface_rate",
+       "mass_rate"] :=
+  rate_units_by_phase
+
+/-- What the keys below the well level, the region keys and the node keys are: `crate<>` / `crate_resv<>` / `cpr` per connection, `ratel<>` / `cratel<>` per completion, `srate<>` / `segpress<>` per segment, `region_rate<>` per region, node pressures; ratios built from the same leaves. -/
+theorem table_level_definitions :
+    (lookupFun "COPR" == some (.crate .oil false) && lookupFun "CWPR" == some (.crate .wat false) &&
+     lookupFun "CGPR" == some (.crate .gas false) && lookupFun "COIR" == some (.crate .oil true) &&
+     lookupFun "CWIR" == some (.crate .wat true) && lookupFun "CGIR" == some (.crate .gas true) &&
+     lookupFun "CVPR" == some (.crateResv false) && lookupFun "CVIR" == some (.crateResv true) &&
+     lookupFun "CCIR" == some (.crate .polymer true) && lookupFun "CSIR" == some (.crate .brine true) &&
+     lookupFun "CPR" == some .cpr &&
+     lookupFun "CWCT" == some (.div (.crate .wat false) (.sum (.crate .wat false) (.crate .oil false))) &&
+     lookupFun "CGOR" == some (.div (.crate .gas false) (.crate .oil false)) &&
+     lookupFun "COFR" == some (.sub (.crate .oil false) (.crate .oil true)) &&
+     lookupFun "WOPRL" == some (.ratel .oil false) && lookupFun "WWPRL" == some (.ratel .wat false) &&
+     lookupFun "WGPRL" == some (.ratel .gas false) && lookupFun "WWIRL" == some (.ratel .wat true) &&
+     lookupFun "WGIRL" == some (.ratel .gas true) &&
+     lookupFun "COPRL" == some (.cratel .oil false) && lookupFun "CWPRL" == some (.cratel .wat false) &&
+     lookupFun "CGPRL" == some (.cratel .gas false) && lookupFun "CWIRL" == some (.cratel .wat true) &&
+     lookupFun "CGIRL" == some (.cratel .gas true) &&
+     lookupFun "SOFR" == some (.srate .oil) && lookupFun "SWFR" == some (.srate .wat) &&
+     lookupFun "SGFR" == some (.srate .gas) &&
+     lookupFun "SWCT" == some (.div (.srate .wat) (.sum (.srate .wat) (.srate .oil))) &&
+     lookupFun "SGOR" == some (.div (.srate .gas) (.srate .oil)) &&
+     lookupFun "SPR" == some (.segpress 0) && lookupFun "SPRD" == some (.segpress 1) &&
+     lookupFun "SPRDH" == some (.segpress 2) && lookupFun "SPRDA" == some (.segpress 3) &&
+     lookupFun "SPRDF" == some (.segpress 4) &&
+     lookupFun "ROPR" == some (.regionRate .oil false) && lookupFun "RWPR" == some (.regionRate .wat false) &&
+     lookupFun "RGPR" == some (.regionRate .gas false) && lookupFun "ROIR" == some (.regionRate .oil true) &&
+     lookupFun "RWIR" == some (.regionRate .wat true) && lookupFun "RGIR" == some (.regionRate .gas true) &&
+     lookupFun "GPR" == some (.nodePressure false) && lookupFun "NPR" == some (.nodePressure true) &&
+     lookupFun "GNETPR" == some (.nodePressure true)) = true :=
+  level_definitions
+
+/-- Unit of each vector below the well level, of region and of node vectors. -/
+theorem table_level_unit_tags :
+    ((lookupFun "COPR").bind unitOf == some "liquid_surface_rate" &&
+     (lookupFun "CWIR").bind unitOf == some "liquid_surface_rate" &&
+     (lookupFun "CGPR").bind unitOf == some "gas_surface_rate" &&
+     (lookupFun "CVPR").bind unitOf == some "rate" && (lookupFun "CVIT").bind unitOf == some "volume" &&
+     (lookupFun "CCIR").bind unitOf == some "mass_rate" && (lookupFun "CSPR").bind unitOf == some "mass_rate" &&
+     (lookupFun "CCIT").bind unitOf == some "mass" && (lookupFun "CSPT").bind unitOf == some "mass" &&
+     (lookupFun "COPT").bind unitOf == some "liquid_surface_volume" &&
+     (lookupFun "CGIT").bind unitOf == some "gas_surface_volume" &&
+     (lookupFun "CNIT").bind unitOf == some "gas_surface_volume" &&
+     (lookupFun "CWCT").bind unitOf == some "water_cut" && (lookupFun "CGOR").bind unitOf == some "gas_oil_ratio" &&
+     (lookupFun "CPR").bind unitOf == some "pressure" &&
+     (lookupFun "WOPRL").bind unitOf == some "liquid_surface_rate" &&
+     (lookupFun "WGPTL").bind unitOf == some "gas_surface_volume" &&
+     (lookupFun "COPTL").bind unitOf == some "liquid_surface_volume" &&
+     (lookupFun "CGORL").bind unitOf == some "gas_oil_ratio" &&
+     (lookupFun "SOFR").bind unitOf == some "liquid_surface_rate" &&
+     (lookupFun "SGFR").bind unitOf == some "gas_surface_rate" &&
+     (lookupFun "SGFRS").bind unitOf == some "gas_surface_rate" &&
+     (lookupFun "SOFT").bind unitOf == some "liquid_surface_volume" &&
+     (lookupFun "SGFT").bind unitOf == some "gas_surface_volume" &&
+     (lookupFun "SWCT").bind unitOf == some "water_cut" && (lookupFun "SOGR").bind unitOf == some "oil_gas_ratio" &&
+     (lookupFun "SPR").bind unitOf == some "pressure" && (lookupFun "SPRDF").bind unitOf == some "pressure" &&
+     (lookupFun "ROPR").bind unitOf == some "liquid_surface_rate" &&
+     (lookupFun "RGIR").bind unitOf == some "gas_surface_rate" &&
+     (lookupFun "RWIT").bind unitOf == some "liquid_surface_volume" &&
+     (lookupFun "RGPT").bind unitOf == some "gas_surface_volume" &&
+     (lookupFun "GPR").bind unitOf == some "pressure" && (lookupFun "NPR").bind unitOf == some "pressure") = true :=
+  level_unit_tags
+
+/-- Energy vectors carry the liquid volume measures (no `rate_unit<rt::energy>`): the code as it is. -/
+theorem table_energy_vectors_carry_liquid_units :
+    levels.all (fun x =>
+      (lookupFun (lvl x "EPR")).bind unitOf == some "liquid_surface_rate" &&
+      (lookupFun (lvl x "EIR")).bind unitOf == some "liquid_surface_rate" &&
+      (lookupFun (lvl x "EPT")).bind unitOf == some "liquid_surface_volume" &&
+      (lookupFun (lvl x "EIT")).bind unitOf == some "liquid_surface_volume") = true :=
+  energy_vectors_carry_liquid_units
+
+/-- Polymer and brine vectors are masses / mass rates, solvent vectors gas volumes, `XGMIR/XGMIT` gas mass, on all three levels. -/
+theorem table_other_phase_unit_tags :
+    levels.all (fun x =>
+      (lookupFun (lvl x "CPR")).bind unitOf == some "mass_rate" &&
+      (lookupFun (lvl x "CIR")).bind unitOf == some "mass_rate" &&
+      (lookupFun (lvl x "CPT")).bind unitOf == some "mass" &&
+      (lookupFun (lvl x "CIT")).bind unitOf == some "mass" &&
+      (lookupFun (lvl x "SPR")).bind unitOf == some "mass_rate" &&
+      (lookupFun (lvl x "SIR")).bind unitOf == some "mass_rate" &&
+      (lookupFun (lvl x "SIT")).bind unitOf == some "mass" &&
+      (lookupFun (lvl x "NPR")).bind unitOf == some "gas_surface_rate" &&
+      (lookupFun (lvl x "NIR")).bind unitOf == some "gas_surface_rate" &&
+      (lookupFun (lvl x "NPT")).bind unitOf == some "gas_surface_volume" &&
+      (lookupFun (lvl x "NIT")).bind unitOf == some "gas_surface_volume" &&
+      (lookupFun (lvl x "GMIR")).bind unitOf == some "mass_rate" &&
+      (lookupFun (lvl x "GMIT")).bind unitOf == some "mass") = true :=
+  other_phase_unit_tags
+
+/-- `crate_sem`: a connection vector of a flowing well under the matching control type is
+`± q_conn · efac` (producers negated, no sign filter). -/
+theorem connection_rate_sem (p : Rt) (inj : Bool) (c : Ctx K) (w : WellIn K) (ws : List (WellIn K))
+    (d : WellDyn K) (g : Nat) (hw : c.wells = w :: ws) (hd : w.dyn = some d) (hs : d.shut = false)
+    (ht : d.isProducer = !inj) (hn : c.num = g + 1) :
+    evalCrate p inj c = sgn inj * (connQ p d.conns g * c.efac w.name) :=
+  evalCrate_eq p inj c w ws d g hw hd hs ht hn
+
+/-- Shut / absent wells contribute nothing to connection, completion and segment vectors. -/
+theorem levels_shut_wells_contribute_nothing (p : Rt) (inj : Bool) (i : Nat) (c : Ctx K) (w : WellIn K)
+    (ws : List (WellIn K)) (hw : c.wells = w :: ws) (h : flowing w = false) :
+    evalCrate p inj c = 0 ∧ evalCrateResv inj c = 0 ∧ evalCpr c = 0 ∧ evalRatel p inj c = 0 ∧
+      evalCratel p inj c = 0 ∧ evalSrate p c = 0 ∧ evalSegpress i c = 0 :=
+  levels_zero_not_flowing p inj i c w ws hw h
+
+/-- A well running under the other control type reports zero for the direction asked. -/
+theorem levels_wrong_control_type_zero (p : Rt) (inj : Bool) (c : Ctx K) (w : WellIn K) (ws : List (WellIn K))
+    (d : WellDyn K) (hw : c.wells = w :: ws) (hd : w.dyn = some d) (hs : d.shut = false)
+    (ht : d.isProducer = inj) :
+    evalCrate p inj c = 0 ∧ evalCrateResv inj c = 0 ∧ evalRatel p inj c = 0 ∧ evalCratel p inj c = 0 :=
+  levels_zero_wrong_type p inj c w ws d hw hd hs ht
+
+/-- **Completion = sum over its connections**: `W…L` of completion `k` equals the sum of the
+connection vectors over the connections the schedule assigns to `k` — any number of connections. -/
+theorem completion_is_sum_of_connections (p : Rt) (inj : Bool) (c : Ctx K) (w : WellIn K) (ws : List (WellIn K))
+    (d : WellDyn K) (k : Nat) (hw : c.wells = w :: ws) (hd : w.dyn = some d) (hs : d.shut = false)
+    (ht : d.isProducer = !inj) :
+    evalRatel p inj { c with num := k } =
+      ((complConns w.sconns k).map fun g => evalCrate p inj { c with num := g + 1 }).sum :=
+  ratel_is_sum_of_crates p inj c w ws d k hw hd hs ht
+
+/-- `C…L` of a connection is the `W…L` value of the completion it belongs to; zero for a
+connection that is in no completion of the schedule. -/
+theorem connection_completion_view (p : Rt) (inj : Bool) (c : Ctx K) (w : WellIn K) (ws : List (WellIn K))
+    (hw : c.wells = w :: ws) :
+    (∀ k, complOfConn w.sconns c.num = some k → evalCratel p inj c = evalRatel p inj { c with num := k }) ∧
+    (complOfConn w.sconns c.num = none → evalCratel p inj c = 0) :=
+  ⟨fun k hk => cratel_eq_ratel p inj c w ws k hw hk, fun hk => cratel_unknown_connection p inj c w ws hw hk⟩
+
+/-- **Well = sum over its connections** where the simulator's numbers are consistent (well
+component = sum of the connection components, no cross-flowing connection): `W·PR = Σ C·PR`. -/
+theorem well_is_sum_of_connections (p : Rt) (w : WellIn K) (d : WellDyn K) (dt : K) (gs : List Nat)
+    (hd : w.dyn = some d) (hs : d.shut = false) (ht : d.isProducer = true)
+    (hsum : lookupRate d.rates p = (gs.map fun g => connQ p d.conns g).sum)
+    (hsign : ∀ g ∈ gs, connQ p d.conns g ≤ 0) :
+    evalRate p false (wellCtx w dt) =
+      (gs.map fun g => evalCrate p false { wellCtx w dt with num := g + 1 }).sum :=
+  well_rate_is_sum_of_connections p w d dt gs hd hs ht hsum hsign
+
+/-- `srate_sem`: segment flow = `−q_seg · efac` (sign convention opposite to the simulator's),
+zero without results for the segment. -/
+theorem segment_rate_sem (p : Rt) (c : Ctx K) (w : WellIn K) (ws : List (WellIn K)) (d : WellDyn K)
+    (hw : c.wells = w :: ws) (hd : w.dyn = some d) (hs : d.shut = false) :
+    evalSrate p c =
+      match findSeg d.segs c.num with
+      | none => 0
+      | some s => -(lookupRate s.rates p) * c.efac w.name :=
+  evalSrate_eq p c w ws d hw hd hs
+
+/-- segment pressure vectors echo the segment's pressure item -/
+theorem segment_pressure_sem (i : Nat) (c : Ctx K) (w : WellIn K) (ws : List (WellIn K)) (d : WellDyn K)
+    (hw : c.wells = w :: ws) (hd : w.dyn = some d) (hs : d.shut = false) :
+    evalSegpress i c =
+      match findSeg d.segs c.num with
+      | none => 0
+      | some s => getD0 s.press i :=
+  evalSegpress_eq i c w ws d hw hd hs
+
+/-- `region_rate_sem`: signed sum over the region's connections of connection rate × efficiency
+factor, each clamped to the direction; connections of wells reported SHUT add nothing. -/
+theorem region_rate_sem (p : Rt) (inj : Bool) (c : Ctx K) :
+    evalRegionRate p inj c = sgn inj * (c.rconns.map (regionTerm p inj c.efac c.dyns)).sum :=
+  evalRegionRate_eq p inj c
+
+/-- **Shut wells contribute nothing to region vectors** (as on the well, connection, group and
+field level): a region all of whose connections belong to SHUT wells has rate 0 whatever the
+connection results say, and a SHUT well's connection can be dropped from any region. -/
+theorem region_shut_wells_contribute_nothing (p : Rt) (inj : Bool) (c : Ctx K) :
+    ((∀ wc ∈ c.rconns, dynShut c.dyns wc.1 = true) → evalRegionRate p inj c = 0) ∧
+    (∀ (wc : String × Nat) (rest : List (String × Nat)), dynShut c.dyns wc.1 = true →
+      evalRegionRate p inj { c with rconns := wc :: rest } = evalRegionRate p inj { c with rconns := rest }) :=
+  ⟨region_all_shut_zero p inj c, fun wc rest h => region_shut_connection_irrelevant p inj c wc rest h⟩
+
+/-- **Regions add up**: the rate over a concatenation of connection lists is the sum of the
+rates over the pieces — any number of regions; two region sets that partition the same
+connections therefore have the same total. -/
+theorem region_rates_sum (p : Rt) (inj : Bool) (c : Ctx K) (ls : List (List (String × Nat))) :
+    evalRegionRate p inj { c with rconns := ls.flatten } =
+      (ls.map fun l => evalRegionRate p inj { c with rconns := l }).sum :=
+  region_rates_add p inj c ls
+
+/-- region rates are never negative (injection / production split by sign per connection) -/
+theorem region_rate_nonneg (p : Rt) (inj : Bool) (c : Ctx K) : 0 ≤ evalRegionRate p inj c :=
+  evalRegionRate_nonneg p inj c
+
+/-- Connection / completion / segment nodes use the well rule of `setFactors`, region nodes the
+field rule: for a region every well gets the whole chain, for rates as well. -/
+theorem node_kind_efac_rules (gs : List (GroupIn K)) (isTotal : Bool) (node : String) (ws : List (WellIn K)) :
+    setFactors gs Kind.single.cat isTotal node ws = setFactors gs .well isTotal node ws ∧
+    setFactors gs Kind.region.cat isTotal node ws =
+      some (ws.map fun w => (w.name, walkUp (parentOf gs) (gefacOf gs) none (gs.length + 1) w.group w.wefac)) :=
+  ⟨(kind_rules gs isTotal node ws).1, region_efac_whole_chain gs isTotal node ws⟩
+
+/-- network node pressure: the node's reported (converged) pressure, 0 without results -/
+theorem node_pressure_sem (conv : Bool) (c : Ctx K) :
+    evalNodePressure conv c =
+      match c.nodeP with
+      | none => 0
+      | some (pr, pc) => if conv then pc else pr :=
+  evalNodePressure_eq conv c
 
 /-- `civilFromDays` is periodic with the Gregorian era: 146 097 days later is the same day and
 month 400 years later. -/
@@ -448,6 +714,47 @@ example : evalE ctxTiny (.div (.rate .gas false) (.rate .oil false)) = some 1000
   simp [evalE, evalRate, rateLoop, ctxTiny, lookupRate]; norm_num
 example : evalRate .oil false ctxTiny ≠ 0 := by
   simp [evalRate, rateLoop, ctxTiny, lookupRate]
+
+/-- a producer with two connections in completion 1 and one in completion 2, one segment -/
+def wConn : WellIn ℚ :=
+  { name := "P1", group := "G1", seq := 0, wefac := 1 / 2,
+    dyn := some { shut := false, rates := [(.oil, -10)], isProducer := true,
+                  conns := [⟨11, [(.oil, -4)], -5, 200⟩, ⟨111, [(.oil, -6)], -7, 210⟩, ⟨211, [(.oil, -1)], -1, 220⟩],
+                  segs := [⟨2, [(.oil, -3)], [100, 1, 2, 3, 4]⟩] },
+    hprod := fun _ => 0, hinj := fun _ => 0, sconns := [(11, 1), (111, 1), (211, 2)] }
+
+/-- hypotheses of `connection_rate_sem`, `completion_is_sum_of_connections`, `segment_rate_sem` -/
+example : ∃ d : WellDyn ℚ, (wellCtx wConn 1).wells = wConn :: [] ∧ wConn.dyn = some d ∧ d.shut = false ∧
+    d.isProducer = !false ∧ complConns wConn.sconns 1 = [11, 111] ∧ complOfConn wConn.sconns 112 = some 1 :=
+  ⟨_, rfl, rfl, rfl, rfl, by decide, by decide⟩
+example : evalRatel .oil false { wellCtx wConn 1 with num := 1 } = 10 := by
+  simp [evalRatel, frontDyn, wellCtx, wConn, complConns, connSum, findConn, lookupRate, efacLookup]; norm_num
+example : evalCrate .oil false { wellCtx wConn 1 with num := 112 } = 6 := by
+  simp [evalCrate, frontDyn, wellCtx, wConn, connOfNum, findConn, lookupRate, efacLookup]
+example : evalSrate .oil { wellCtx wConn 1 with num := 2 } = 3 := by
+  simp [evalSrate, evalSeg, frontDyn, wellCtx, wConn, findSeg, lookupRate, efacLookup]
+/-- hypotheses of `well_is_sum_of_connections`: the three connection rates sum to the well rate, ≤ 0 -/
+example : lookupRate [((.oil : Rt), (-11 : ℚ))] .oil =
+    ([11, 111, 211].map fun g => connQ .oil [⟨11, [(.oil, -4)], -5, 200⟩, ⟨111, [(.oil, -6)], -7, 210⟩, ⟨211, [(.oil, -1)], -1, 220⟩] g).sum := by
+  simp [lookupRate, connQ, findConn]; norm_num
+/-- a region with connections of two wells, one of them injecting -/
+def ctxReg : Ctx ℚ :=
+  { wells := [], efac := fun n => if n = "P1" then 1 / 2 else 1, dt := 1,
+    dyns := [("P1", { shut := false, rates := [], conns := [⟨11, [(.oil, -4)], 0, 0⟩] }),
+             ("I1", { shut := false, rates := [], conns := [⟨12, [(.oil, 3)], 0, 0⟩] })],
+    rconns := [("P1", 11), ("I1", 12)] }
+example : evalRegionRate .oil false ctxReg = 2 ∧ evalRegionRate .oil true ctxReg = 3 := by
+  constructor <;> simp [evalRegionRate, regionLoop, ctxReg, connRate, dynShut, findConn, lookupRate] <;> norm_num
+/-- the same region when the simulator reports P1 as SHUT but still carries its connection rate -/
+def ctxRegShut : Ctx ℚ :=
+  { ctxReg with dyns := [("P1", { shut := true, rates := [], conns := [⟨11, [(.oil, -4)], 0, 0⟩] }),
+                         ("I1", { shut := false, rates := [], conns := [⟨12, [(.oil, 3)], 0, 0⟩] })] }
+example : dynShut ctxRegShut.dyns "P1" = true ∧ evalRegionRate .oil false ctxRegShut = 0 := by
+  constructor
+  · simp [dynShut, ctxRegShut]
+  · simp [evalRegionRate, regionLoop, ctxRegShut, ctxReg, connRate, dynShut, findConn, lookupRate]
+example : Calendar.Valid 2024 2 29 ∧ ¬ Calendar.Valid 2023 2 29 := by
+  unfold Calendar.Valid Calendar.daysInMonth Calendar.isLeap; decide
 
 end Examples
 
